@@ -73,6 +73,7 @@ theorem taintStep_congr (a b : List Bool) (op : Op)
   case fixedDw s _ => exact h s (by simp)
   case chan s => exact h s (by simp)
   case add x y => rw [h x (by simp), h y (by simp)]
+  case reuseDw s _ _ _ => exact h s (by simp)
   case tcat ss =>
     induction ss with
     | nil => rfl
@@ -104,6 +105,7 @@ theorem widthStep_congr (a b : List ℕ) (op : Op)
     cases ss with
     | nil => rfl
     | cons s ss => exact h s (by simp)
+  case reuseDw s _ _ _ => exact h s (by simp)
   case flat s m => rw [h s (by simp)]
   case output s => exact h s (by simp)
 
@@ -134,12 +136,20 @@ theorem mem_keptEdges (p : Prog) (n s : ℕ) (hn : n < p.length)
     (s, n) ∈ keptEdges p := by
   unfold keptEdges
   rw [List.mem_flatten]
-  refine ⟨(p[n]).inputs.map (·, n), ?_, ?_⟩
-  · rw [List.mem_map]
-    refine ⟨(p[n], n), ?_, ?_⟩
-    · rw [List.mem_zipIdx_iff_getElem?]; simp [List.getElem?_eq_getElem hn]
-    · cases hop : p[n] <;> simp_all [Op.defining, Op.isCat]
-  · rw [List.mem_map]; exact ⟨s, hs, rfl⟩
+  have hmem : (p[n], n) ∈ p.zipIdx := by
+    rw [List.mem_zipIdx_iff_getElem?]; simp [List.getElem?_eq_getElem hn]
+  cases hop : p[n] with
+  | reuseDw s' o ls a =>
+    rw [hop] at hs; simp only [Op.inputs, List.mem_singleton] at hs; subst hs
+    refine ⟨[(s, n), (ls, s)], ?_, by simp⟩
+    rw [List.mem_map]; exact ⟨(p[n], n), hmem, by rw [hop]⟩
+  | _ =>
+    refine ⟨(p[n]).inputs.map (·, n), ?_, ?_⟩
+    · rw [List.mem_map]
+      refine ⟨(p[n], n), hmem, ?_⟩
+      rw [hop] at hd hc ⊢
+      simp_all [Op.defining, Op.isCat]
+    · rw [List.mem_map]; exact ⟨s, hs, rfl⟩
 
 theorem label_eq_of_edge (p : Prog) (l : List ℕ) (hok : labelsOK p l = true) (n s : ℕ)
     (hn : n < p.length) (hd : (p[n]).defining = false) (hc : (p[n]).isCat = false)
@@ -334,6 +344,7 @@ theorem reach_allTrue (p : Prog) (l : List ℕ) (α : ℕ → List Rat) (hok : l
       simp only [maskStep]
       exact allTrue_expand _ _ (down s (by rw [hop]; simp [Op.inputs]) (by rw [hop]; rfl))
     | reuse s o ls c a => simp only [maskStep]; exact hown
+    | reuseDw s o ls a => simp only [maskStep]; exact hown
     | output s => simp only [maskStep]; exact down s (by rw [hop]; simp [Op.inputs]) (by rw [hop]; rfl)
 
 /-- the tensor feeding an excluded layer, and the tensor a network returns, are alive in full -/
@@ -357,6 +368,7 @@ theorem supported_at (p : Prog) (h : supported p = true) (n : ℕ) (hn : n < p.l
       | .dw s _ => !((tainted p).getD s false)
       | .fixedDw s _ => !((tainted p).getD s false)
       | .reuse s _ ls _ _ => !((tainted p).getD s false) && !((tainted p).getD ls false)
+      | .reuseDw s _ ls _ => !((tainted p).getD s false) && !((tainted p).getD ls false)
       | _ => true) = true := by
   unfold supported at h
   simp only [List.all_eq_true] at h
@@ -429,6 +441,7 @@ theorem untainted_mask (p : Prog) (l : List ℕ) (α : ℕ → List Rat) (hok : 
         exact prop s (by rw [hop]; simp [Op.inputs]) (by rw [hop]; rfl) (by rw [hop]; rfl) ht.1
     | flat s m => rw [hop] at ht; simp [taintStep] at ht
     | reuse s o ls c a => simp only [maskStep]
+    | reuseDw s o ls a => simp only [maskStep]
     | output s =>
       rw [hop] at ht; simp only [taintStep] at ht
       simp only [maskStep]
@@ -482,6 +495,38 @@ theorem reuse_wf (p : Prog) (h : wellShaped p = true) (n s o ls c : ℕ) (a : LA
     obtain ⟨⟨⟨h1, h2⟩, h3⟩, -⟩ := hm
     subst h1 h2
     exact ⟨ho, h3, Or.inr ⟨a', rfl⟩⟩
+  | _ => rw [hg] at hm; simp at hm
+
+/-- a depthwise layer invoked again: the tensors at its two call sites are tied -/
+theorem reuseDw_labels (p : Prog) (l : List ℕ) (hok : labelsOK p l = true) (n s o ls : ℕ) (a : LAttr)
+    (hn : n < p.length) (hop : p[n] = .reuseDw s o ls a) : l.getD ls 0 = l.getD s 0 := by
+  unfold labelsOK at hok
+  simp only [Bool.and_eq_true, List.all_eq_true, beq_iff_eq] at hok
+  refine hok.1.1 (ls, s) ?_
+  unfold keptEdges
+  rw [List.mem_flatten]
+  refine ⟨[(s, n), (ls, s)], ?_, by simp⟩
+  rw [List.mem_map]
+  refine ⟨(p[n], n), ?_, by rw [hop]⟩
+  rw [List.mem_zipIdx_iff_getElem?]; simp [List.getElem?_eq_getElem hn]
+
+theorem reuseDw_wf (p : Prog) (h : wellShaped p = true) (n s o ls : ℕ) (a : LAttr) (hn : n < p.length)
+    (hop : p[n] = .reuseDw s o ls a) : o < n ∧ ls < o ∧ ∃ a', getOp p o = .dw ls a' := by
+  unfold wellShaped at h
+  simp only [Bool.and_eq_true, List.all_eq_true] at h
+  have hmem : (p[n], n) ∈ p.zipIdx := by
+    rw [List.mem_zipIdx_iff_getElem?]; simp [List.getElem?_eq_getElem hn]
+  have := h.2 (p[n], n) hmem
+  rw [hop] at this
+  simp only [Bool.and_eq_true, decide_eq_true_eq] at this
+  obtain ⟨ho, hm⟩ := this
+  cases hg : getOp p o with
+  | dw s' a' =>
+    rw [hg] at hm
+    simp only [Bool.and_eq_true, beq_iff_eq, decide_eq_true_eq] at hm
+    obtain ⟨⟨h1, h3⟩, -⟩ := hm
+    subst h1
+    exact ⟨ho, h3, a', rfl⟩
   | _ => rw [hg] at hm; simp at hm
 
 /-! ### the bridge: bookkeeping masks are coherent -/
@@ -603,6 +648,23 @@ theorem coherent_of_bookkeeping (σ : Sem V) (inp : ℕ → List V) (p : Prog) (
     · rw [hal, halo]; exact (ownMask_congr p l α o n hlo).symm
     · rw [hum s (by omega) hsu.1, hum ls (by omega) hsu.2]
       exact (ownMask_congr p l α ls s hlls).symm
+  | reuseDw s o ls a =>
+    obtain ⟨hon, hlso, a', hg⟩ := reuseDw_wf p hws n s o ls a hn hop
+    have hls := reuseDw_labels p l hok n s o ls a hn hop
+    rw [hop] at hin hal hsu hlab
+    simp only [maskStep] at hal
+    simp only [Bool.and_eq_true, Bool.not_eq_true'] at hsu
+    have hsn := hin s (by simp [Op.inputs])
+    have hol : o < p.length := by omega
+    have hg' : p[o] = .dw ls a' := by rw [← getOp_eq p o hol]; exact hg
+    have halo : (aliveMasks p l α).getD o [] = ownMask p l α o := by
+      rw [alive_eq p l α hsb o hol, hg']; rfl
+    have hlo : l.getD ls 0 = l.getD o 0 :=
+      label_eq_of_edge p l hok o ls hol (by rw [hg']; rfl) (by rw [hg']; rfl) (by rw [hg']; simp [Op.inputs])
+    have hsnl : l.getD s 0 = l.getD n 0 := hlab s (by simp [Op.inputs]) rfl rfl
+    refine ⟨hsn, ?_, ?_⟩
+    · rw [hal, hum s (by omega) hsu.1]; exact (ownMask_congr p l α s n hsnl).symm
+    · rw [hal, halo]; apply ownMask_congr; rw [← hsnl, ← hls, hlo]
   | output s =>
     rw [hop] at hin hal
     simp only [maskStep] at hal
